@@ -529,3 +529,43 @@ func sameIgnoringTimes(a, b any) bool {
 	jb, _ := json.Marshal(strip(b))
 	return string(ja) == string(jb)
 }
+
+// waitWatchesEstablished blocks until every informer of a freshly started cache that has listed a resource has also
+// registered its watch. client-go's reflector lists first and watches afterwards, and the fake API server has no
+// resource versions to resume from: an object written in the gap is never delivered. A real API server does not lose
+// it, so for a process that is to live through several cycles the gap must be closed before the first session writes.
+func waitWatchesEstablished(s *Store) bool {
+	deadline := time.Now().Add(30 * time.Second)
+	for {
+		listed, watched := map[string]bool{}, map[string]bool{}
+		for _, a := range s.Kube.Actions() {
+			key := "kube/" + a.GetResource().String()
+			if a.GetVerb() == "list" {
+				listed[key] = true
+			} else if a.GetVerb() == "watch" {
+				watched[key] = true
+			}
+		}
+		for _, a := range s.Kai.Actions() {
+			key := "kai/" + a.GetResource().String()
+			if a.GetVerb() == "list" {
+				listed[key] = true
+			} else if a.GetVerb() == "watch" {
+				watched[key] = true
+			}
+		}
+		missing := 0
+		for k := range listed {
+			if !watched[k] {
+				missing++
+			}
+		}
+		if missing == 0 {
+			return true
+		}
+		if time.Now().After(deadline) {
+			return false
+		}
+		time.Sleep(time.Millisecond)
+	}
+}
